@@ -45,7 +45,11 @@ func (e *kvElection) watchLoop(ctx context.Context) {
 				// When watcher closes, check if key still exists
 				// If not, trigger re-election
 				if !e.IsLeader() {
-					go e.checkKeyAndReelect(ctx)
+					e.wg.Add(1)
+					go func() {
+						defer e.wg.Done()
+						e.checkKeyAndReelect(ctx)
+					}()
 				}
 				return
 			}
@@ -76,7 +80,11 @@ func (e *kvElection) checkKeyAndReelect(ctx context.Context) {
 				zap.Error(err),
 			)...,
 		)
-		go e.attemptAcquireWithRetry(ctx)
+		e.wg.Add(1)
+		go func() {
+			defer e.wg.Done()
+			e.attemptAcquireWithRetry(ctx)
+		}()
 		return
 	}
 
@@ -86,7 +94,11 @@ func (e *kvElection) checkKeyAndReelect(ctx context.Context) {
 		log.Debug("key_empty_triggering_reelection",
 			e.logWithContext(ctx)...,
 		)
-		go e.attemptAcquireWithRetry(ctx)
+		e.wg.Add(1)
+		go func() {
+			defer e.wg.Done()
+			e.attemptAcquireWithRetry(ctx)
+		}()
 		return
 	}
 
@@ -130,7 +142,12 @@ func (e *kvElection) handleWatchEvent(entry Entry) {
 				zap.String("key", e.key),
 			)...,
 		)
-		go e.attemptAcquireWithRetry(e.ctx)
+		ctx := e.ctx
+		e.wg.Add(1)
+		go func() {
+			defer e.wg.Done()
+			e.attemptAcquireWithRetry(ctx)
+		}()
 		return
 	}
 
@@ -142,7 +159,12 @@ func (e *kvElection) handleWatchEvent(entry Entry) {
 				zap.String("key", e.key),
 			)...,
 		)
-		go e.attemptAcquireWithRetry(e.ctx)
+		ctx := e.ctx
+		e.wg.Add(1)
+		go func() {
+			defer e.wg.Done()
+			e.attemptAcquireWithRetry(ctx)
+		}()
 		return
 	}
 
